@@ -120,15 +120,18 @@ fn c06_text_entry(input: &[u8], bytes_result: &Result<Board, chess_movegen::fen:
     match std::panic::catch_unwind(|| text.parse::<Board>()) {
         Err(_) => vec![Divergence::new("parser-panics", format!("{text:?}.parse::<Board>() panicked (0x{})", hex(input)))],
         Ok(r) => {
-            let same = match (&r, bytes_result) {
-                (Ok(a), Ok(b)) => a == b && a.zobrist() == b.zobrist() && a.half_move_clock() == b.half_move_clock() && a.full_move_clock() == b.full_move_clock(),
-                (Err(_), Err(_)) => true,
-                _ => false,
-            };
-            if same {
-                vec![]
-            } else {
-                vec![Divergence::new("text-entry-point-disagrees-with-byte-parser", format!("{text:?}: parse::<Board>() ok={} but parse_fen ok={}", r.is_ok(), bytes_result.is_ok()))]
+            // the text entry may be more lenient or stricter than the byte parser (trimming, ...); what
+            // the property asks of it is totality and playable boards - and when both accept, the same board
+            match (&r, bytes_result) {
+                (Ok(a), Ok(b)) => {
+                    if a == b && a.zobrist() == b.zobrist() && a.half_move_clock() == b.half_move_clock() && a.full_move_clock() == b.full_move_clock() {
+                        vec![]
+                    } else {
+                        vec![Divergence::new("text-entry-point-disagrees-with-byte-parser", format!("{text:?}: both entry points accept but return different boards"))]
+                    }
+                }
+                (Ok(a), Err(_)) => accepted_board_invariants(a, &format!("{text:?}.parse::<Board>()")),
+                _ => vec![],
             }
         }
     }
@@ -597,7 +600,7 @@ pub fn run_c06(args: &Args) -> i32 {
         json!({
             "evaluations": parses + reach_n + builds,
             "distinct_nontrivial": accepted + built_ok,
-            "rule": "seeds = every catalogue FEN + field-shape seeds; (1) all single edits with all 256 byte values (substitute, delete, insert), every prefix; 2-, 3- and 4-byte UTF-8 characters substituted for 0-4 bytes at every offset of every seed and behind short prefixes; every valid-UTF-8 input also goes through str::parse::<Board>() (the CLI / WASM entry), which must not panic and must answer like the byte parser; (2) all double edits over a 28-symbol alphabet holding one representative per parser match arm (quick: 30 richest seeds, thorough: all seeds); (3) every string of length <= 5 (thorough 6) over that alphabet; (4) complete product of valid/invalid spellings per field on 4 placements, the complete domain of the castling-rights validation (every occupant of e1 e8 a1 h1 a8 h8 out of {empty, either king, either rook, queen} x 15 rights subsets x both turns) and of the en-passant validation (marker file x every occupancy of the six squares of that file on ranks 2-7 out of {empty, either pawn, either knight} x both turns); (5) canonical FEN of every position reachable within depth 2 (thorough 3) of every root, and of every member of the small-material families (kings + one piece, pawn pushes, promotion pins, en-passant and castling families, both colours), must be accepted and parse to that position; (6) builder call sequences, the short ones followed by four re-uses of the same builder (turn / en-passant setters only, then build() again) compared with a fresh builder. Non-trivial = inputs the parser/builder ACCEPTED (the C06 invariants are evaluated on each of them); rejected inputs only exercise totality.",
+            "rule": "seeds = every catalogue FEN + field-shape seeds; (1) all single edits with all 256 byte values (substitute, delete, insert), every prefix; 2-, 3- and 4-byte UTF-8 characters substituted for 0-4 bytes at every offset of every seed and behind short prefixes; every valid-UTF-8 input also goes through str::parse::<Board>() (the CLI / WASM entry), which must not panic, must return playable boards, and must return the same board whenever both entry points accept; (2) all double edits over a 28-symbol alphabet holding one representative per parser match arm (quick: 30 richest seeds, thorough: all seeds); (3) every string of length <= 5 (thorough 6) over that alphabet; (4) complete product of valid/invalid spellings per field on 4 placements, the complete domain of the castling-rights validation (every occupant of e1 e8 a1 h1 a8 h8 out of {empty, either king, either rook, queen} x 15 rights subsets x both turns) and of the en-passant validation (marker file x every occupancy of the six squares of that file on ranks 2-7 out of {empty, either pawn, either knight} x both turns); (5) canonical FEN of every position reachable within depth 2 (thorough 3) of every root, and of every member of the small-material families (kings + one piece, pawn pushes, promotion pins, en-passant and castling families, both colours), must be accepted and parse to that position; (6) builder call sequences, the short ones followed by four re-uses of the same builder (turn / en-passant setters only, then build() again) compared with a fresh builder. Non-trivial = inputs the parser/builder ACCEPTED (the C06 invariants are evaluated on each of them); rejected inputs only exercise totality.",
             "seeds": seeds.len(),
             "single_edit_parses": single, "double_edit_parses": double, "short_string_parses": short, "field_product_parses": prod,
             "parses_repeated_in_trapping_build": trapped_parses,
